@@ -296,11 +296,29 @@ move_thread_to_final(const char *src, const char *dst)
 	}
 
 	size_t bytes;
-	while ((bytes = fread(buffer, 1, sizeof(buffer), infile)) > 0)
-		fwrite(buffer, 1, bytes, outfile);
+	while ((bytes = fread(buffer, 1, sizeof(buffer), infile)) > 0) {
+		if (fwrite(buffer, 1, bytes, outfile) != bytes) {
+			err("fwrite(%s) failed:", dst);
+			fclose(outfile);
+			fclose(infile);
+			return -1;
+		}
+	}
 
-	fclose(outfile);
+	/* Don't remove the source unless it is completely copied */
+	if (ferror(infile)) {
+		err("fread(%s) failed:", src);
+		fclose(outfile);
+		fclose(infile);
+		return -1;
+	}
+
 	fclose(infile);
+
+	if (fclose(outfile) != 0) {
+		err("fclose(%s) failed:", dst);
+		return -1;
+	}
 
 	if (remove(src) != 0) {
 		err("remove(%s) failed:", src);
